@@ -545,4 +545,127 @@ inline Method result_method(const Bytes &setting, size_t phrase_len) {
   return m;
 }
 
+// ---- C03 significance model (from crypt(5), not from the code) -----------------
+// Returns false when nothing may be asserted for this phrase (documented quirk).
+inline bool sig_of(Method tagm, size_t setting_len, const Bytes &P, Bytes &sig) {
+  sig.clear();
+  auto proj7 = [](const Bytes &p, size_t n) {
+    Bytes o;
+    for (size_t i = 0; i < n; i++) o.push_back(i < p.size() ? (char)(p[i] & 0x7f) : '\0');
+    return o;
+  };
+  switch (tagm) {
+    case M_DES: case M_BIG: {
+      if (setting_len <= 13) {
+        sig = proj7(P, 8);
+      } else {
+        size_t n = P.size() > 128 ? 128 : P.size();
+        size_t nseg = (n + 7) / 8;
+        if (nseg < 1) nseg = 1;
+        sig = std::to_string(nseg) + ":" + proj7(P, 8 * nseg);
+      }
+      return true;
+    }
+    case M_BSDI: {
+      size_t nb = (P.size() + 7) / 8;
+      if (nb < 1) nb = 1;
+      sig = std::to_string(nb) + ":" + proj7(P, 8 * nb);
+      return true;
+    }
+    case M_BF_X:
+      for (unsigned char c : P)
+        if (c >= 0x80) return false;  // documented $2x$ sign-extension collisions
+      /* fallthrough */
+    case M_BF_A: case M_BF_B: case M_BF_Y: {
+      Bytes k = P + Bytes(1, '\0');
+      for (size_t i = 0; i < 72; i++) sig.push_back(k[i % k.size()]);
+      return true;
+    }
+    case M_NONE: return false;
+    default: sig = P; return true;
+  }
+}
+
+// Positions of S whose change must change the canonical setting echoed in the result.
+struct Window {
+  size_t salt_lo = 0, salt_len = 0;  // documented salt window
+  const char *salt_alpha = A64;
+  std::vector<size_t> cost_pos;      // positions of cost characters that may be changed to `cost_alpha`
+  const char *cost_alpha = "0123456789";
+};
+inline Window salt_window(const Bytes &S) {
+  Window w;
+  Method m = classify_tag(S);
+  auto run_until_dollar = [&](size_t pos, size_t maxlen) {
+    size_t e = S.find('$', pos);
+    if (e == Bytes::npos) e = S.size();
+    size_t n = e - pos;
+    return n > maxlen ? maxlen : n;
+  };
+  switch (m) {
+    case M_DES: case M_BIG: w.salt_lo = 0; w.salt_len = 2; break;
+    case M_BSDI:
+      if (S.size() >= 9) { w.salt_lo = 5; w.salt_len = 4; w.cost_pos = {1, 2, 3, 4}; w.cost_alpha = A64; }
+      break;
+    case M_MD5: w.salt_lo = 3; w.salt_len = run_until_dollar(3, 8); w.salt_alpha = "./0123456789ABCDEFGHIJKLMNOPQRSTUVWXYZabcdefghijklmnopqrstuvwxyz#%&()+,-<=>?@[]^_{|}~"; break;
+    case M_SHA256: case M_SHA512: {
+      size_t pos = 3;
+      if (S.compare(3, 7, "rounds=") == 0) {
+        size_t e = S.find('$', 10);
+        if (e == Bytes::npos) return w;
+        if (e - 10 >= 4) w.cost_pos = {e - 1, e - 2, e - 3};
+        pos = e + 1;
+      }
+      w.salt_lo = pos; w.salt_len = run_until_dollar(pos, 16);
+      w.salt_alpha = "./0123456789ABCDEFGHIJKLMNOPQRSTUVWXYZabcdefghijklmnopqrstuvwxyz#%&()+,-<=>?@[]^_{|}~";
+      break;
+    }
+    case M_SHA1: {
+      size_t e = S.find('$', 6);
+      if (e == Bytes::npos) return w;
+      if (e > 6 && S[e - 1] >= '0' && S[e - 1] <= '9') w.cost_pos = {e - 1};
+      size_t q = e + 1, z = q;
+      while (z < S.size() && is_a64((unsigned char)S[z])) z++;
+      w.salt_lo = q; w.salt_len = z - q;
+      break;
+    }
+    case M_SUNMD5: {
+      size_t pos = 5;
+      if (S.size() > 5 && S.compare(5, 7, "rounds=") == 0) {
+        size_t e = S.find('$', 12);
+        if (e == Bytes::npos) return w;
+        w.cost_pos = {e - 1};
+        pos = e + 1;
+      }
+      size_t z = pos;
+      while (z < S.size() && is_a64((unsigned char)S[z])) z++;
+      w.salt_lo = pos; w.salt_len = z - pos;
+      break;
+    }
+    case M_BF_A: case M_BF_B: case M_BF_X: case M_BF_Y:
+      if (S.size() >= 29) { w.salt_lo = 7; w.salt_len = 22; w.salt_alpha = BF64; w.cost_pos = {5}; w.cost_alpha = "456"; }
+      break;
+    case M_SCRYPT: {
+      if (S.size() < 14) return w;
+      size_t e = S.rfind('$');
+      size_t end = (e != Bytes::npos && e >= 14) ? e : S.size();
+      w.salt_lo = 14; w.salt_len = end - 14;
+      w.cost_pos = {3}; w.cost_alpha = "0123456";
+      break;
+    }
+    case M_YESCRYPT: case M_GOST: {
+      size_t t = strlen(METHOD_TAG[m]);
+      size_t p1 = S.find('$', t);
+      if (p1 == Bytes::npos) return w;
+      size_t e = S.find('$', p1 + 1);
+      size_t end = e == Bytes::npos ? S.size() : e;
+      w.salt_lo = p1 + 1; w.salt_len = end - (p1 + 1);
+      w.cost_pos = {t + 1}; w.cost_alpha = "0123456";
+      break;
+    }
+    default: break;
+  }
+  return w;
+}
+
 }  // namespace vf
